@@ -66,6 +66,17 @@ func region(ticks, delta *big.Int) string {
 	return "wide"
 }
 
+// regionSub is region for a time that lies sub nanoseconds (0..99) after the tick.
+func regionSub(ticks, delta *big.Int, sub int64) string {
+	if sub == 0 {
+		return region(ticks, delta)
+	}
+	if region(ticks, delta) == "ns64" && region(new(big.Int).Add(ticks, big.NewInt(1)), delta) == "ns64" {
+		return "ns64"
+	}
+	return "wide"
+}
+
 func sameInstant(got time.Time, sec, nsec int64) bool {
 	return got.Unix() == sec && int64(got.Nanosecond()) == nsec
 }
